@@ -180,6 +180,16 @@ std::string gen_key(Src& s, const GenOpts& o) {
   if (o.key_pool && !o.key_pool->empty() && !s.coin(1, 8)) return s.oneof(*o.key_pool);
   static const std::vector<std::string> common = {"a", "b", "c", "key", "id", "", "x", "name"};
   if (s.coin(1, 3)) return s.oneof(common);
+  if (s.coin(1, 8)) {
+    // near-collision families: keys of one length that differ in a single interior byte (positions inside / between the
+    // vector blocks and the overlapping head/tail words of the key comparison kernels); two of them in one object happen often
+    static const struct { size_t len, pos; } fam[] = {{3, 1}, {5, 2}, {9, 4}, {13, 4}, {14, 5}, {15, 6}, {24, 11}, {33, 32}, {40, 20}, {66, 33}, {70, 36}, {97, 64}};
+    auto f = fam[s.index(12)];
+    std::string k(f.len, 'q');
+    for (size_t i = 0; i < f.len; i++) k[i] = (char)('a' + i % 23);
+    k[f.pos] = (char)('1' + s.index(3));
+    return k;
+  }
   return gen_string(s, o.special_strings, o.long_strings && s.coin(1, 4));
 }
 
